@@ -3,6 +3,7 @@ package converters
 import (
 	"bufio"
 	"encoding/binary"
+	"errors"
 	"fmt"
 	"io"
 	"log"
@@ -235,7 +236,7 @@ func NewCacheFile(cachePath string) (*cacheFile, error) {
 	// read the file header
 	fh := converterCacheFileHeader{}
 	if err := binary.Read(buffer, binary.LittleEndian, &fh); err != nil {
-		if err == io.EOF {
+		if err == io.EOF || err == io.ErrUnexpectedEOF {
 			if err := res.Reset(); err != nil {
 				return nil, fmt.Errorf("failed to reset cache file: %w", err)
 			}
@@ -256,17 +257,21 @@ func NewCacheFile(cachePath string) (*cacheFile, error) {
 	for {
 		streamSection := converterStreamSection{}
 		if err := binary.Read(buffer, binary.LittleEndian, &streamSection); err != nil {
-			if err == io.EOF {
+			if err == io.EOF || err == io.ErrUnexpectedEOF {
 				break
 			}
 			return nil, fmt.Errorf("failed to read stream header: %w", err)
 		}
-		res.fileSize += streamHeaderSize
 
 		streamSize, err := skipStream(buffer)
 		if err != nil {
+			if errors.Is(err, io.EOF) || errors.Is(err, io.ErrUnexpectedEOF) {
+				// The last stream was only partially written, drop it.
+				break
+			}
 			return nil, fmt.Errorf("failed to skip stream data: %w", err)
 		}
+		res.fileSize += streamHeaderSize
 
 		if info, ok := res.streamInfos[streamSection.StreamID]; ok {
 			if res.freeSize == 0 || res.freeStart > info.offset-streamHeaderSize {
@@ -279,6 +284,10 @@ func NewCacheFile(cachePath string) (*cacheFile, error) {
 			size:   uint64(streamSize),
 		}
 		res.fileSize += int64(streamSize)
+	}
+	// Cut off a partially written stream at the end of the file.
+	if err := file.Truncate(res.fileSize); err != nil {
+		return nil, fmt.Errorf("failed to truncate file: %w", err)
 	}
 	if res.freeSize == 0 {
 		res.freeStart = res.fileSize
